@@ -347,7 +347,7 @@ func c04RecordAfterSuccess(c *Check, a *Anchors) {
 	loop, _ := cmdsLoop(a)
 	var upCall *ast.CallExpr
 	for _, call := range callsIn(body, false) {
-		if isFunc(callee(info, call), PkgFingerprint, "", "IsTaskUpToDate") {
+		if a.isUpToDateCallee(callee(info, call)) {
 			upCall = call
 		}
 	}
@@ -414,10 +414,48 @@ func queryNeverRecords(c *Check, a *Anchors, rule string) {
 			if !ok || !isFunc(callee(info, call), PkgFingerprint, "", "IsTaskUpToDate") {
 				return true
 			}
+			if fb.Obj != nil && a.upToDateWrappers()[fb.Obj] != nil {
+				return true // a thin forwarder: judged at each of its call sites, below
+			}
 			n++
 			kind := dryOptionKind(c, info, fb, call)
 			c.Decide(kind == "true", rule, ordinal(ord, "IsTaskUpToDate@"+fnDisplay(fb)), call.Pos(), "WithDry(true)",
 				"the up-to-date query of a listing passes WithDry("+kind+"): without --dry it records the fingerprint of every listed task, so a later normal run skips tasks whose commands never ran")
+			return true
+		})
+		// calls of a thin forwarder (isTaskUpToDate(ctx, t, dry)): the value bound to the parameter its WithDry receives
+		inspectDeep(fb.Body, func(nd ast.Node) bool {
+			call, ok := nd.(*ast.CallExpr)
+			if !ok {
+				return true
+			}
+			fn, _ := callee(info, call).(*types.Func)
+			w := a.upToDateWrappers()[fn]
+			if fn == nil || w == nil {
+				return true
+			}
+			n++
+			var inner *ast.CallExpr
+			inspectDeep(w.Body, func(m ast.Node) bool {
+				if ic, ok := m.(*ast.CallExpr); ok && isFunc(callee(w.Info(), ic), PkgFingerprint, "", "IsTaskUpToDate") {
+					inner = ic
+				}
+				return true
+			})
+			kind := dryOptionKind(c, w.Info(), w, inner)
+			if kind == "param" {
+				kind = "absent (defaults to false)"
+				inspectDeep(inner, func(m ast.Node) bool {
+					if wc, ok := m.(*ast.CallExpr); ok && isFunc(callee(w.Info(), wc), PkgFingerprint, "", "WithDry") && len(wc.Args) == 1 {
+						if i := paramIndex(w.Info(), w, varOf(w.Info(), wc.Args[0])); i >= 0 && i < len(call.Args) {
+							kind = dryArgKind(info, fb, call.Args[i])
+						}
+					}
+					return true
+				})
+			}
+			c.Decide(kind == "true", rule, ordinal(ord, "IsTaskUpToDate@"+fnDisplay(fb)), call.Pos(), "WithDry(true) through "+fnDisplay(w),
+				"the up-to-date query of a listing passes WithDry("+kind+") through "+fnDisplay(w)+": without --dry it records the fingerprint of every listed task, so a later normal run skips tasks whose commands never ran")
 			return true
 		})
 		// writing checker methods called directly (not through IsTaskUpToDate)
